@@ -163,6 +163,7 @@ pub fn coq_error_payload(e: &CompilationErrorPayload) -> Option<String> {
         CompilationErrorPayload::AmbigousImport(s) => format!("(EAmbigousImport {})", coq_str(s)),
         CompilationErrorPayload::SuperLimitReached => "ESuperLimitReached".into(),
         CompilationErrorPayload::TooManyUpvalues => "ETooManyUpvalues".into(),
+        CompilationErrorPayload::BadVariableName(s) => format!("(EBadVariableName {})", coq_str(s)),
         _ => return None,
     })
 }
